@@ -106,10 +106,11 @@ static void emit_pair(Ctx& c, const char* op, const std::vector<NamedVec>& input
   put_obj(o, "ad", ad); put_obj(o, "an", an);
   o.end();
 }
-static void emit_flt(Ctx& c, const char* op, const std::vector<NamedVec>& inputs, const VecXd& flt, const VecXd& dbl) {
+static void emit_flt(Ctx& c, const char* op, const std::vector<NamedVec>& inputs, const VecXd& flt, const VecXd& dbl, bool tangentResult = false) {
   Out& o = out();
   o.begin("fltcmp"); o.str("p", "C12"); o.raw("g", Info<G>::name()); o.str("sc", "f"); o.str("st", stratum(c.pl)); o.str("op", op);
   for (auto& in : inputs) o.vec(in.k, in.v);
+  if (tangentResult) o.vec("rt", dbl);                      // classification tangent (theta / pi - theta class) from the double run
   o.vec("flt", flt); o.vec("dbl", dbl); o.end();
 }
 
@@ -169,7 +170,7 @@ static void op_log(Ctx& c) {
   emit_pair(c, "log", {{"a", X.coeffs()}}, "rt", primal(tj.coeffs()), t.coeffs(), {{"Ja", dual(tj.coeffs(), 0, DoF)}}, {{"Ja", Ja}});
   if (!c.flt) return;
   Gf Xf = elemAf(c); G Xd = widenG(Xf);
-  emit_flt(c, "log", {{"a", Xd.coeffs()}}, widen(Xf.log().coeffs()), Xd.log().coeffs());
+  emit_flt(c, "log", {{"a", Xd.coeffs()}}, widen(Xf.log().coeffs()), Xd.log().coeffs(), true);
 }
 static void op_exp(Ctx& c) {
   T t = tanA(c); Jac Jt; G R = t.exp(Jt);
@@ -377,7 +378,7 @@ static void op_minus(Ctx& c, bool left) {
   Gf Yf = elemAf(c); Gf Xf = left ? elemDf(c).compose(Yf) : Yf.compose(elemDf(c));
   G Xd = widenG(Xf), Yd = widenG(Yf);
   Tf tf = left ? Xf.lminus(Yf) : Xf.rminus(Yf); T td = left ? Xd.lminus(Yd) : Xd.rminus(Yd);
-  emit_flt(c, op, {{"a", Xd.coeffs()}, {"b", Yd.coeffs()}}, widen(tf.coeffs()), td.coeffs());
+  emit_flt(c, op, {{"a", Xd.coeffs()}, {"b", Yd.coeffs()}}, widen(tf.coeffs()), td.coeffs(), true);
 }
 
 int main(int argc, char** argv) {
